@@ -108,8 +108,10 @@ def invocations():
     for name, a in [("P", ["-P"]), ("Pf", ["-P", "-f"]), ("Pd", ["-P", "-d", "62"]), ("PM", ["-P", "-M"])]:
         add("resize2fs-" + name, "resize2fs", ["@resize2fs"] + a + ["{img}"], "resize2fs")
     for name, a in [("normal", []), ("r", ["-r"]), ("Q", ["-Q"]), ("ra", ["-ra"]), ("Qa", ["-Qa"]), ("rs", ["-rs"]), ("rf", ["-rf"]),
-                    ("rp", ["-rp"]), ("rn", ["-rn"]), ("rb", ["-r", "-b", "{bk}", "-B", "1024"]), ("raO", ["-ra", "-O", "4096"]), ("rc", ["-rc"])]:
+                    ("rp", ["-rp"]), ("rn", ["-rn"]), ("rb", ["-r", "-b", "{bk}", "-B", "1024"]), ("raO", ["-ra", "-O", "4096"])]:
         add("e2image-" + name, "e2image", ["@e2image"] + a + ["{img}", "{out}"], "e2image")
+    # -c compares with an existing destination (a destination shorter than the source makes check_block() spin on read() = 0: C06)
+    add("e2image-rc", "e2image", ["@e2image", "-rc", "{img}", "{outcopy}"], "e2image")
     add("e2image-r-stdout", "e2image", ["@e2image", "-r", "{img}", "-"], "e2image")
     for name, a in [("", []), ("c64", ["-c", "64"]), ("c8", ["-c", "8"])]:
         add("e2freefrag-" + name, "e2freefrag", ["@e2freefrag"] + a + ["{img}"], "e2freefrag")
@@ -152,6 +154,8 @@ def doc_exit(tool, cls, code):
         return not (cls == "ro" and code & 3)
     if tool == "debugfs_script":
         return 0 <= code <= 16
+    if tool == "dumpe2fs":
+        return 0 <= code <= 255
     return code in (0, 1)
 
 
@@ -207,6 +211,9 @@ class Runner:
         os.makedirs(outdir)
         sub = {"{img}": img, "{out}": out, "{outdir}": outdir, "{undo}": st.undo or os.path.join(d, "host_small"),
                "{host}": os.path.join(d, "host_small"), "{host_bb}": os.path.join(d, "host_bb"), "{bk}": "2049"}
+        if any("{outcopy}" in a for a in inv.argv):
+            G.sparse_copy(img, out)
+            sub["{outcopy}"] = out
         argv = []
         for a in inv.argv:
             if a in TOOLBIN:
